@@ -183,6 +183,7 @@ pub struct Part {
 
 pub type StepOracle = Box<dyn Fn(&ChatScn, &View, &StepObs, &View, &mut BTreeSet<String>) -> Vec<Finding> + Send + Sync>;
 pub type StateOracle = Box<dyn Fn(&ChatScn, &mut World, &View, &mut BTreeSet<String>) -> Vec<Finding> + Send + Sync>;
+pub type AfterStep = Box<dyn Fn(&ChatScn, &mut World, &View, &StepObs, &View, &mut BTreeSet<String>) -> Vec<Finding> + Send + Sync>;
 pub type ActFn = Box<dyn Fn(&ChatScn, &View) -> Vec<Act> + Send + Sync>;
 
 pub struct ChatScn {
@@ -208,6 +209,7 @@ pub struct ChatScn {
     pub invariants: Vec<&'static str>,
     pub step_oracle: Option<StepOracle>,
     pub state_oracle: Option<StateOracle>,
+    pub after_step: Option<AfterStep>,
     pub goals: Vec<&'static str>,
     pub spec_skip: Option<Box<dyn Fn(&Act) -> bool + Send + Sync>>,
     pub key_now: bool,
@@ -234,6 +236,7 @@ impl ChatScn {
             invariants: vec![],
             step_oracle: None,
             state_oracle: None,
+            after_step: None,
             goals: vec![],
             spec_skip: None,
             key_now: false,
@@ -356,6 +359,12 @@ impl Scenario for ChatScn {
     fn state_oracle(&self, w: &mut World, v: &View, goals: &mut BTreeSet<String>) -> Vec<Finding> {
         match &self.state_oracle {
             Some(f) => f(self, w, v, goals),
+            None => vec![],
+        }
+    }
+    fn after_step(&self, w: &mut World, pre: &View, obs: &StepObs, post: &View, goals: &mut BTreeSet<String>) -> Vec<Finding> {
+        match &self.after_step {
+            Some(f) => f(self, w, pre, obs, post, goals),
             None => vec![],
         }
     }
